@@ -227,3 +227,72 @@ def check_read(cfg, model, reader, ch, a, b):
                 kind = "wrong-value"
             return (kind, "read(%d,%d): %s" % (a, b, msg))
     return None
+
+
+# ---------------------------------------------------------------- raw inspection
+def raw_files(chdir):
+    """relpath -> dict(index=ndarray (rows,2) of python ints, data_len, attrs, dtype, shape, path) for every *.h5
+    below chdir's timestamped subdirectories (any name), plus a list of other entries."""
+    import h5py
+
+    out = {}
+    others = []
+    for sub in sorted(os.listdir(chdir)):
+        p = os.path.join(chdir, sub)
+        if not os.path.isdir(p):
+            others.append(sub)
+            continue
+        for fn in sorted(os.listdir(p)):
+            rel = sub + "/" + fn
+            fp = os.path.join(p, fn)
+            if not fn.endswith(".h5") or fn.startswith("tmp."):
+                others.append(rel)
+                continue
+            try:
+                with h5py.File(fp, "r") as f:
+                    ds = f["rf_data"]
+                    idx = f["rf_data_index"][...]
+                    attrs = {}
+                    for k, v in ds.attrs.items():
+                        try:
+                            v = v.item()
+                        except AttributeError:
+                            pass
+                        if isinstance(v, bytes):
+                            v = v.decode("ascii", "replace")
+                        attrs[k] = v
+                    out[rel] = {
+                        "index": [[int(r[0]), int(r[1])] for r in idx],
+                        "index_shape": tuple(idx.shape),
+                        "data_len": int(ds.shape[0]),
+                        "shape": tuple(ds.shape),
+                        "dtype": ds.dtype,
+                        "attrs": attrs,
+                        "chunks": ds.chunks,
+                        "path": fp,
+                    }
+            except Exception as e:
+                out[rel] = {"error": "%s: %s" % (type(e).__name__, e), "path": fp}
+    return out, others
+
+
+def stored_ranges(info):
+    """[(first index, length)] described by a file's block index."""
+    rows = info["index"]
+    out = []
+    for i, (s, off) in enumerate(rows):
+        nxt = rows[i + 1][1] if i + 1 < len(rows) else info["data_len"]
+        out.append((s, nxt - off))
+    return out
+
+
+def merge_ranges(ranges):
+    out = []
+    for s, ln in sorted(ranges):
+        if ln <= 0:
+            continue
+        if out and out[-1][0] + out[-1][1] == s:
+            out[-1][1] += ln
+        else:
+            out.append([s, ln])
+    return [tuple(x) for x in out]
